@@ -36,8 +36,9 @@ def angularSpectrum(inputComplexAmp, wvl, inputSpacing, outputSpacing, z):
 
     #Spatial Frequencies (of source plane)
     df1 = 1. / (N*inputSpacing)
-    fX,fY = numpy.meshgrid(df1*numpy.arange(-N/2,N/2),
-                           df1*numpy.arange(-N/2,N/2))
+    #(the bins of the centred FFT: zero frequency at index N//2, also for odd N)
+    fX,fY = numpy.meshgrid(df1*(numpy.arange(N) - N//2),
+                           df1*(numpy.arange(N) - N//2))
     fsq = fX**2 + fY**2
 
     #Scaling Param
